@@ -6,6 +6,7 @@
 -/
 import ChalkModel.Wire
 import ChalkModel.Eval
+import ChalkModel.Contract
 
 namespace Chalk.Sem
 open Chalk Chalk.Sexp
@@ -84,12 +85,39 @@ def judgeGround (v : Verdict) (ans : GroundAnswer) : Sexp :=
   | .no, .ambig => .list [.atom "rejected", .atom "ground_goal_ambiguous", .atom "certified-no"]
   | _, .other => .list [.atom "rejected", .atom "malformed_answer", .atom "-"]
 
+def sigOfSexp? : Sexp → Option Sig
+  | .list xs => xs.mapM fun
+      | .list [.atom c, n] => do some (c, ← n.nat?)
+      | _ => none
+  | _ => none
+
+def tmListOfSexp? : Sexp → Option (List Tm)
+  | .list xs => xs.mapM tmOfSexp?
+  | _ => none
+
+def answerOfSexp : Sexp → Answer
+  | .atom "none" => .none
+  | .atom "ambig" => .ambigOther
+  | .list [.atom "unique", σ] => match tmListOfSexp? σ with | some l => .unique l | none => .malformed
+  | .list [.atom "definite", σ] => match tmListOfSexp? σ with | some l => .definite l | none => .malformed
+  | _ => .malformed
+
+def Judgement.toSexp : Judgement → Sexp
+  | .accepted st => .list [.atom "accepted", .atom st]
+  | .rejected _ c w => .list [.atom "rejected", .atom c, .list (w.map tmToSexp)]
+  | .inconclusive why => .list [.atom "inconclusive", .atom why]
+
 def opsSem : Sexp → Option Sexp
   | .list [.atom "decide", p, g, fuel] => do
       some (.list [.atom "ok", (evalGoal (← programOfSexp? p) (← fuel.nat?) [] (← goalOfSexp? g)).toSexp])
   | .list [.atom "judge-ground", p, g, fuel, ans] => do
       let v := evalGoal (← programOfSexp? p) (← fuel.nat?) [] (← goalOfSexp? g)
       some (judgeGround v (groundAnswerOfSexp ans))
+  | .list [.atom "judge-answer", p, g, nvars, fuel, sig, depth, maxc, slg, ans] => do
+      let P ← programOfSexp? p
+      let pool := termsUpTo (← sigOfSexp? sig) (← depth.nat?)
+      let cands := (assignments pool (← nvars.nat?)).take (← maxc.nat?)
+      some (judgeAnswer P (← fuel.nat?) (← goalOfSexp? g) cands (← bool? slg) (answerOfSexp ans)).toSexp
   | _ => none
 
 end Chalk.Sem
